@@ -775,6 +775,10 @@ func (c *SpecCtx) trCall(x *SCall) Term {
 		return Term{fmt.Sprintf("(mk_%s %s (+ %s %d))", s.Sort.Name, arr, ln, len(x.Args)-1), s.Sort}
 	case "typeis": // typeis(x, T)
 		v := c.tr(x.Args[0])
+		if c.typeNotLinked(specText(x.Args[1])) {
+			// the type's package is not part of the program under verification: no value can have that type
+			return Term{"false", sortBool}
+		}
 		tt, _ := c.resolveType(specText(x.Args[1]))
 		if tt == nil {
 			return c.errorf("typeis: bad type")
@@ -1114,6 +1118,10 @@ func (vc *VC) havocLocation(ctx *SpecCtx, st *State, m *Clause) {
 			vc.havocGhostVar(st, gv)
 			return
 		}
+		if x.Name == "mapcontents" {
+			vc.havocMapHeaps(st)
+			return
+		}
 		// a local variable of the unit under verification (e.g. one captured and assigned by a function literal
 		// whose effect is applied here)
 		if v, ok := st.names[x.Name]; ok {
@@ -1405,4 +1413,24 @@ func (vc *VC) ghostFieldHeapOfType(ctx *SpecCtx, t types.Type, name string) (str
 		return "", "", false
 	}
 	return ghostHeapName(gf.Owner, gf.Name) + "_" + smtName(fs.Name), "(Array " + bs.Name + " " + fs.Name + ")", true
+}
+
+
+// typeNotLinked: the (pointer to a) named type pkg.T is written with an import alias whose package is not among
+// the loaded packages (go/packages loads every transitive dependency of the packages under verification).
+func (c *SpecCtx) typeNotLinked(ts string) bool {
+	ts = strings.TrimPrefix(strings.TrimSpace(ts), "*")
+	i := strings.LastIndex(ts, ".")
+	if i < 0 || strings.ContainsAny(ts, "[]") {
+		return false
+	}
+	pn := ts[:i]
+	if c.cf == nil {
+		return false
+	}
+	path, ok := c.cf.Imports[pn]
+	if !ok {
+		return false
+	}
+	return c.vc.eng.pkgByPath(path) == nil && c.findPackage(pn) == nil
 }
